@@ -899,16 +899,20 @@ def fuzz_binary():
 
 def _fuzz_env():
     from vlib.runner import worker_env
-    env = worker_env("san")
-    env.pop("LD_PRELOAD", None)     # the target is linked against the shared ASan runtime itself
-    env["ASAN_OPTIONS"] = "detect_leaks=0:abort_on_error=0:detect_odr_violation=0:symbolize=1:allocator_may_return_null=1"
+    env = worker_env("san")          # LD_PRELOAD of the shared ASan runtime the target is linked against
+    env["ASAN_OPTIONS"] = "detect_leaks=0:abort_on_error=0:detect_odr_violation=0:symbolize=1:allocator_may_return_null=1:quarantine_size_mb=8"
     return env
+
+
+def _ensure_fuzz_binary():
+    from vlib.runner import build
+    if not build(["san"], "fuzz_json") or not os.path.exists(fuzz_binary()):
+        raise HarnessError("fuzz target %s could not be built (make FLAVOUR=san fuzz_json)" % fuzz_binary())
 
 
 def run_fuzz(case):
     exe = fuzz_binary()
-    if not os.path.exists(exe):
-        raise HarnessError("fuzz target %s has not been built (make FLAVOUR=san fuzz)" % exe)
+    _ensure_fuzz_binary()
     work = tempfile.mkdtemp(prefix="fuzz_json_", dir=build_dir("san"))
     corpus = os.path.join(work, "corpus")
     os.makedirs(corpus)
@@ -945,8 +949,7 @@ def run_fuzz(case):
 
 def run_fuzzinput(case):
     exe = fuzz_binary()
-    if not os.path.exists(exe):
-        raise HarnessError("fuzz target %s has not been built" % exe)
+    _ensure_fuzz_binary()
     path = _tmpfile() + ".fuzz"
     with open(path, "wb") as f:
         f.write(JT.unpack(case["text"]))
@@ -997,10 +1000,15 @@ def _bucket(v):
 
 
 KNOWN = {
-    # integer literals in [2^63, 2^64): Handler::Uint64 casts to int64_t; uint64 leaves >= 2^63: tojson_integer casts to int64_t
-    "c15_uint64_wrap": lambda case, v: _bucket(v).startswith(("anchor:uint64_wrap", "output:uint64_wrap")),
-    # C-string interfaces cut at an embedded NUL: keys (Handler::Key -> field_check(const char*)) and strcmp against the replacement strings
-    "c15_embedded_nul_cstring": lambda case, v: _bucket(v).startswith(("anchor:nul_key_cut", "anchor:nul_special_cut", "rejected_wellformed:nul_key_cut_collision")),
+    # integer literals in [2^63, 2^64): Handler::Uint64 casts to int64_t
+    "c15_uint64_wrap_input": lambda case, v: _bucket(v).startswith("anchor:") and "uint64_wrap" in _bucket(v),
+    # uint64 leaves >= 2^63: NumpyArray::tojson_integer<uint64_t> casts to int64_t (ToJson has no unsigned method)
+    "c15_uint64_wrap_output": lambda case, v: _bucket(v).startswith("output:uint64_wrap"),
+    # Handler::Key hands the key to field_check(const char*): cut at an embedded NUL (two such keys may then collide)
+    "c15_nul_key_cut": lambda case, v: _bucket(v).startswith("rejected_wellformed:nul_key_cut_collision") or (
+        _bucket(v).startswith("anchor:") and "nul_key_cut" in _bucket(v)),
+    # Handler::String compares with strcmp: a string that continues after a NUL still matches a replacement string
+    "c15_nul_special_cut": lambda case, v: _bucket(v).startswith("anchor:") and "nul_special_cut" in _bucket(v),
     # ToJson*::complex writes both parts with Impl::real, bypassing the replacement strings
     "c15_complex_nonfinite": lambda case, v: _bucket(v).startswith("illformed:complex_nonfinite"),
     # do_parse: an unfinished scalar as last document (no handler callback, stream at its end) is dropped silently
